@@ -391,6 +391,26 @@ def run(ctx, R, tier):
     R.check(len(rec) >= 2, "C01-R10", "convert_obj_into_marshallable|recurses-into-members", "members of sequences/sets and values of dicts are converted recursively (%d recursive calls)" % len(rec),
             conv.loc(), "the conversion does not call itself for the members of containers")
 
+    # ---------------------------------------------------------------- R11
+    R.rule("C01-R11", "the byte normaliser in front of the decoders returns the content of exactly the view it was given", floor=1)
+    cb = p.cls("Pyro5.serializers.SerializerBase").methods.get("_convertToBytes")
+    if cb is None:
+        raise AnalysisError("SerializerBase._convertToBytes vanished")
+    dp = cb.params[1]
+    rets = [r for r in walk_no_nested(cb.node) if isinstance(r, ast.Return)]
+    bad = None
+    for r in rets:
+        if r.value is None or dp not in {n.id for n in ast.walk(r.value) if isinstance(n, ast.Name)}:
+            bad = r
+        for n in ast.walk(r.value) if r.value is not None else []:
+            if isinstance(n, ast.Attribute) and n.attr in ("obj", "base"):
+                bad = r       # the object underneath a memoryview is the whole receive buffer, not the slice
+            if isinstance(n, ast.Subscript):
+                bad = r
+    R.check(bool(rets) and bad is None, "C01-R11", "_convertToBytes|content-of-the-view", "every return value is built from the argument itself (bytes(x), x.tobytes(), x), never from the "
+            "buffer underneath a view or a slice of it", cb.loc(), "`%s` at %s does not return the bytes of the view it was given: the payload view of a message with annotations "
+            "is a slice of the receive buffer, so the decoder is handed annotation bytes as well" % (unparse(bad, 70) if bad is not None else "", cb.loc(bad) if bad is not None else ""))
+
     # ---------------------------------------------------------------- R3
     from ..report import Rules
     from . import c06
